@@ -732,3 +732,70 @@ Proof.
   split; [|vm_compute; reflexivity].
   eexists. split; [vm_compute; reflexivity|]. vm_compute. intros [H|[]]; discriminate.
 Qed.
+
+(* ---------- the config is the concatenation of the selected entries' commands ---------- *)
+(* the catalog entries serviceConfig selects for the grouping map [m], in the order their
+   commands are appended *)
+Definition selected_c (catalog : list centry) (m : smap) : list centry :=
+  flat_map (fun nk : str * list ikey =>
+              let (name, keys) := nk in
+              if beq name [] || match keys with [] => true | _ => false end then []
+              else filter (fun e => existsb (key_eqb (inst_key (e_node e) (e_sid e))) keys)
+                          (catalog_service catalog name)) m.
+
+Lemma service_entries_struct_c prefix keys svcs : forall ls,
+  service_entries prefix keys svcs = Ok ls ->
+  ls = flat_map e_cmds (filter (fun e => existsb (key_eqb (inst_key (e_node e) (e_sid e))) keys) svcs).
+Proof.
+  induction svcs as [|e svcs IH]; intros ls; cbn [service_entries filter flat_map].
+  - intros H. now inversion H.
+  - destruct (service_entries prefix keys svcs) as [rest| |]; cbn [bind]; try discriminate.
+    destruct (existsb (key_eqb (inst_key (e_node e) (e_sid e))) keys).
+    + unfold entry_cmds. destruct (Nat.leb _ _); cbn [bind]; [|discriminate].
+      intros H. inversion H. cbn [flat_map]. now rewrite (IH rest eq_refl).
+    + intros H. inversion H; subst. now apply IH.
+Qed.
+Lemma all_configs_struct_c prefix catalog m : forall ls,
+  all_configs prefix catalog m = Ok ls -> ls = flat_map e_cmds (selected_c catalog m).
+Proof.
+  induction m as [|[name keys] m IH]; intros ls; cbn [all_configs selected_c flat_map].
+  - intros H. now inversion H.
+  - fold (selected_c catalog m).
+    destruct (service_config prefix catalog name keys) as [c| |] eqn:Ec; cbn [bind]; try discriminate.
+    destruct (all_configs prefix catalog m) as [rest| |]; cbn [bind]; try discriminate.
+    intros H. inversion H. rewrite flat_map_app, <- (IH rest eq_refl). f_equal.
+    unfold service_config in Ec.
+    destruct (beq name [] || match keys with [] => true | _ :: _ => false end); [now inversion Ec|].
+    now apply service_entries_struct_c in Ec.
+Qed.
+
+(* the lines of the pushed config are exactly, in order, the commands of the selected entries *)
+Theorem config_lines_selected prefix catalog passing ls :
+  config_lines prefix catalog passing = Ok ls -> ls = flat_map e_cmds (selected_c catalog (group passing)).
+Proof. apply all_configs_struct_c. Qed.
+
+Lemma selected_c_in catalog passing e :
+  In e (selected_c catalog (group passing)) ->
+  In e catalog /\ exists svc, In svc passing /\ c_sname svc = e_sname e
+                              /\ c_node svc = e_node e /\ c_sid svc = e_sid e.
+Proof.
+  unfold selected_c. intros H. apply in_flat_map in H as [[name keys] [Hm He]].
+  destruct (beq name [] || match keys with [] => true | _ :: _ => false end); [destruct He|].
+  apply filter_In in He as [He Hk]. unfold catalog_service in He. apply filter_In in He as [He Hn]. apply beq_eq in Hn.
+  apply existsb_exists in Hk as [k [Hk Hb]]. apply key_eqb_eq in Hb. subst k. split; [exact He|].
+  unfold group in Hm. destruct (group_sound _ _ _ _ _ Hm Hk) as [[ks0 [[] _]]|[svc [Hs [Hsn Hkey]]]].
+  destruct (inst_key_injective _ _ _ _ Hkey) as [En Es]. exists svc. repeat split; congruence.
+Qed.
+
+(* ... and an entry whose instance is not healthy in the observed state (or not registered, or
+   not tagged) is not among them: none of ITS commands is in the config (the same text can
+   still be there as the command of another, healthy entry) *)
+Theorem unhealthy_entry_not_selected prefix status strict checks catalog e :
+  ~ (registered (checks_with_tag_prefix prefix checks) (e_node e) (e_sid e)
+     /\ healthy (checks_with_tag_prefix prefix checks) status strict (e_node e) (e_sid e)) ->
+  ~ In e (selected_c catalog (group (watch_passing prefix status strict checks))).
+Proof.
+  intros Hn Hin. apply Hn. apply selected_c_in in Hin as [_ [svc [Hs [_ [En Es]]]]].
+  unfold watch_passing in Hs. apply passing_iff_healthy in Hs as [Hc [Hsvc Hh]].
+  rewrite <- En, <- Es. split; [|exact Hh]. exists svc. split; [exact Hc|]. split; [split; reflexivity | exact Hsvc].
+Qed.
